@@ -186,7 +186,7 @@ func Run(ext *api.Extension, item *api.OutputChannelItem, keepEntry bool) (res R
 	res.Macro = entry2.Protocol.Macro
 	if stageDump {
 		switch entry2.Protocol.Name {
-		case "redis", "amqp", "kafka":
+		case "redis", "amqp", "kafka", "http", "dns":
 			rq, err1 := json.Marshal(entry2.Request)
 			rs, err2 := json.Marshal(entry2.Response)
 			if err1 == nil && err2 == nil && len(rq)+len(rs) <= StageDumpLimit {
